@@ -1,13 +1,15 @@
 """Which units (and extra engines) serve which property, plus MANIFEST metadata."""
-UNITS = ['u_list', 'u_jobs', 'u_tok', 'u_plan', 'u_exp1', 'u_calc']
+UNITS = ['u_list', 'u_jobs', 'u_tok', 'u_plan', 'u_exp1', 'u_calc', 'u_exp2']
 
 PROPERTY_UNITS = {
     'C03': ['u_list'],
     'C06': ['u_jobs'],
-    'C05': ['u_list', 'u_jobs', 'u_tok', 'u_plan', 'u_exp1', 'u_calc'],
-    'C01': ['u_plan', 'u_exp1'],
-    'C13': ['u_plan', 'u_exp1'],
-    'C12': ['u_exp1'],
+    'C05': ['u_list', 'u_jobs', 'u_tok', 'u_plan', 'u_exp1', 'u_calc', 'u_exp2'],
+    'C01': ['u_plan', 'u_exp1', 'u_exp2'],
+    'C13': ['u_plan', 'u_exp1', 'u_exp2'],
+    'C12': ['u_exp1', 'u_exp2'],
+    'C10': ['u_exp2'],
+    'C17': ['u_exp2'],
     'C19': ['u_calc'],
 }
 from vx import kani_engine as _kani
@@ -71,6 +73,21 @@ META['C19'] = {
     'technique': 'Kani full-domain loop-free harness on the mechanically extracted kernel + Verus contracts on the extracted literal/mode code',
 }
 
+META['C10'] = {
+    'text': 'Verus proves that expand_env changes only the text of tokens that are neither single-quoted nor backquoted and that the gate says need expansion; tags and the '
+            'number of tokens never change. Termination of the rescanning loop `while env_in_token` is an obligation that cannot be discharged: it is the recorded known finding '
+            '(self-referential values hang; inserted values are scanned again).',
+    'note': 'env_in_token and expand_one_env (lazy-prefix regexes, env lookups) are uninterpreted: exactness of one substitution step is not covered; '
+            'known finding: non-termination / rescanning.',
+}
+META['C17'] = {
+    'text': 'Verus proves that expand_alias replaces exactly the words at head positions (line start or after an unquoted "|"; documented exception after a head `xargs`) that are '
+            'aliases with a non-empty value, each by the tokenization of its value spliced in place in ONE pass (inserted words are never inspected again), everything else '
+            'unchanged and in order; alias table operations have whole-map postconditions (add, lookup, unalias removes exactly n).',
+    'note': 'HashMap<String,String> contracts stated over string views (shims); parse_line of the value uninterpreted; the alias builtin (definition regex, listing format) '
+            'is not under contract; the xargs special case is cicada\'s documented behaviour and is part of the head-position definition.',
+}
+
 _PENDING = 'not yet brought under contract in this revision of /verif (work in progress; see DESIGN.md)'
 NOT_APPLICABLE = {
     'C14': 'parse tree comes from a macro-generated pest parser and the external, lifetime-parameterised pest::iterators::Pair type; no contract within reach',
@@ -78,5 +95,5 @@ NOT_APPLICABLE = {
     'C18': 'semantics live in SQLite\'s SQL parser (bundled C library); SQL is built with format!, outside Verus',
     'C20': 'needs the lineread completer protocol, a populated filesystem and the escaped-word round trip (a recorded C01 violation)',
 }
-for _p in ['C02', 'C04', 'C07', 'C08', 'C09', 'C10', 'C11', 'C15', 'C17']:
+for _p in ['C02', 'C04', 'C07', 'C08', 'C09', 'C11', 'C15']:
     NOT_APPLICABLE.setdefault(_p, _PENDING)
